@@ -71,6 +71,16 @@ def cases(tier: str, rng: random.Random) -> List[Case]:
     for v, x in G.instance_cases(rng):
         for m in ("sync", "async"):
             out.append(std_case(v, x, m, tag="a:instances"))
+    # distinct but equal (and hashable) user-written validators in several slots / keys / trees: each error names its own
+    U0, U4 = ("UserV", N(0), False), ("UserV", N(4), False)
+    for v_, x_ in ((("NTupleV", [U0, U0, U4, U4], None, Some(("CoTupleOrList",))), ("VTuple", [G.S("a"), G.S("b"), G.I(1), G.I(2)])),
+                   (("DictAnyV", [P(G.S("a"), U4), P(G.S("b"), U4), P(G.S("c"), U0)], None, None, False),
+                    ("VDict", [P(G.S("a"), G.I(1)), P(G.S("b"), G.I(2)), P(G.S("c"), G.S("x"))])),
+                   (("RecordV", [P(G.S("a"), U4), P(G.S("b"), U4)], N(2), None, None, False), ("VDict", [P(G.S("a"), G.I(1)), P(G.S("b"), G.I(2))])),
+                   (("ListV", ("NTupleV", [U4, U4], None, Some(("CoTupleOrList",))), [], [], None), ("VList", [("VTuple", [G.I(1), G.I(2)]), ("VTuple", [G.I(3), G.I(4)])])),
+                   (("ListV", U4, [], [], None), ("VList", [G.I(1), G.I(2)]))):
+        for m in ("sync", "async"):
+            out.append(std_case(v_, x_, m, tag="a:equal-children"))
     # equality validators with processors: a mismatch is reported about the processed value (the value the
     # comparison saw), a wrong type about the caller's own object
     for mt, pre in ((G.S("ok"), [("Strip",)]), (G.S("OK"), [("Strip",), ("Upper",)]), (G.B(b"ok"), [("Lower",)]), (G.I(2), [("ProcUser", N(1))])):
@@ -257,6 +267,26 @@ def _same_value(a: Any, b: Any) -> bool:
         return True
 
 
+def slot_owners(v: Any, e: Any) -> List[Any]:
+    """The child validator each direct child error must name, where the position decides it (n-tuple slots, record
+    keys); None elsewhere (same order as direct_children)."""
+    n = len(direct_children(e))
+    name = type(v).__name__
+    try:
+        if isinstance(e, KE.IndexErrs) and name == "NTupleValidator":
+            return [resolve(v.fields[i]) if 0 <= i < len(v.fields) else None for i in e.indexes.keys()]
+        if isinstance(e, KE.KeyErrs) and name == "RecordValidator":
+            table = {}
+            for k, c_ in v.keys:
+                table.setdefault(k, c_)
+            return [resolve(table[k]) if k in table else None for k in e.keys.keys()]
+        if isinstance(e, KE.KeyErrs) and hasattr(v, "schema") and isinstance(v.schema, dict):
+            return [resolve(v.schema[k]) if k in v.schema else None for k in e.keys.keys()]
+    except Exception:  # noqa
+        pass
+    return [None] * n
+
+
 def walk(v: Any, x: Any, inv: Any, path: str) -> Optional[str]:
     """node_ok, recursively, on live objects: who by identity, values by identity wherever nothing
     has been coerced or preprocessed yet."""
@@ -282,12 +312,16 @@ def walk(v: Any, x: Any, inv: Any, path: str) -> Optional[str]:
                     f"coercer / processors is {hand!r} (input {x!r})")
     kids = children_of(v)
     kid_x = child_inputs(v, x, e)
+    slot_owner = slot_owners(v, e)
     for i, ch in enumerate(direct_children(e)):
         if type(ch) is Invalid and isinstance(ch.err_type, KE.MissingKeyErr) and ch.validator is v:
             if x is not _NOARG and plain(v) and isinstance(x, dict) and ch.value is not x:
                 return f"{path}/{i}: the missing-key node holds {ch.value!r}, not the mapping that lacks the key"
             continue
         owner = next((k for k in kids if ch.validator is k), None)
+        if owner is not None and slot_owner[i] is not None and owner is not slot_owner[i]:
+            # equal is not the same: the node names the validator *of this slot / key*, not an equal one elsewhere
+            return f"{path}/{i}: child error names {ch.validator!r} (id {id(ch.validator)}), a child of {v!r} but not the one at this position (id {id(slot_owner[i])})"
         if owner is None:
             # an error produced deeper by a union/optional child still names that child
             return f"{path}/{i}: child error names {ch.validator!r}, which is not a child validator of {v!r}"
